@@ -16,7 +16,7 @@ use std::io::{BufRead, BufReader, Write};
 use std::path::PathBuf;
 use unic_locale::{LanguageIdentifier, Locale};
 
-pub const RULE: &str = "Domain: one deterministic, seeded corpus evaluated by every build of the same harness source (feature sets of {likelysubtags, serde, macros}: quick = none, {l}, {s}, {m}, {l,s} (main), {l,s,m}; thorough = all 8): section A every 'en-' + locale-alphabet token sequence of 1-3 subtags, every 1-2 subtag sequence of the full boundary alphabet (exhaustive) and the sanitisation-slip strings (padding, case-folding look-alikes such as U+212A); B proptest well-formed locales (all extension shapes, case / separator masks); C near-miss mutations; D language-id strings and near misses - each through Locale::from_bytes, LanguageIdentifier::from_bytes, both canonicalize functions (through the facade crates), FromStr of Locale / LanguageIdentifier / ExtensionsMap / Language / Script / Region / Variant and TryFrom for Language, Display plain and under width / precision / fill format specs, Debug, hash; E all pairs of a 160 | 400-value pool: ==, cmp, hash equality, matches under the four flag pairs for Locale and LanguageIdentifier; F proptest mutation histories (0-40 public mutator / getter calls, maximize/minimize left out) with the call result and to_string() after every step; G character_direction of every accepted identifier of B and D and of every CLDR layout locale. Oracle: for every line index, sections A-F are byte-identical in all builds; a G line may differ only between a build with and one without likelysubtags, and only for a script-less identifier (the documented refinement); builds with the same likelysubtags setting must agree on every G line. Non-trivial = a line whose input is not a single subtag (histories: at least one mutation step); distinct lines counted through a hash set over the reference build's transcript.";
+pub const RULE: &str = "Domain: one deterministic, seeded corpus evaluated by every build of the same harness source (feature sets of {likelysubtags, serde, macros}: quick = none, {l}, {s}, {m}, {l,s} (main), {l,s,m}; thorough = all 8): section A every 'en-' + locale-alphabet token sequence of 1-3 subtags, every 1-2 subtag sequence of the full boundary alphabet (exhaustive) and the sanitisation-slip strings (padding, case-folding look-alikes such as U+212A); B proptest well-formed locales (all extension shapes, case / separator masks); C near-miss mutations; D language-id strings and near misses - each through Locale::from_bytes, LanguageIdentifier::from_bytes, both canonicalize functions (through the facade crates), FromStr of Locale / LanguageIdentifier / ExtensionsMap / Language / Script / Region / Variant and TryFrom for Language, Display plain and under width / precision / fill format specs, Debug, hash; E all pairs of a 160 | 400-value pool: ==, cmp, hash equality, matches under the four flag pairs for Locale and LanguageIdentifier; F proptest mutation histories (0-40 public mutator / getter calls, maximize/minimize left out) with the call result and to_string() after every step; G character_direction of every accepted identifier of B and D and of every CLDR layout locale. Oracle: for every line index, sections A-F are byte-identical in all builds; a G line may differ only between a build with and one without likelysubtags, and only for a script-less identifier (the documented refinement); builds with the same likelysubtags setting must agree on every G line. Every build also compiles a probe file without cfg(feature) code (feature-less API, inference- and coherence-sensitive uses): a feature set under which only that file fails to compile while another set builds is a failure. Non-trivial = a line whose input is not a single subtag (histories: at least one mutation step); distinct lines counted through a hash set over the reference build's transcript.";
 
 pub fn features() -> String {
     let mut f = vec![];
